@@ -85,6 +85,7 @@ func (w *World) verifyFunc(fn *ssa.Function, c *Contract) *FnRun {
 			return r
 		}
 		env.vars[g.Name] = v
+		r.recordInput(g.Name, v)
 	}
 	r.entryEnv = env
 	r.frame = env.evalModItems(c.Modifies)
@@ -115,6 +116,12 @@ func (r *FnRun) recordInput(name string, v Val) {
 
 // emit renders one obligation as a complete SMT-LIB script.
 func (o *Oblig) script(withModel bool) string {
+	return o.scriptOpt(withModel, false)
+}
+
+// scriptOpt: relaxed=true drops every quantified hypothesis and axiom; a model
+// of the relaxed query is only a candidate and must be confirmed by replay.
+func (o *Oblig) scriptOpt(withModel, relaxed bool) string {
 	r := o.Run
 	var b strings.Builder
 	if withModel {
@@ -122,24 +129,65 @@ func (o *Oblig) script(withModel bool) string {
 	}
 	b.WriteString("(set-logic ALL)\n")
 	body := strings.Builder{}
+	asserts := strings.Builder{}
+	for _, a := range o.PC.list() {
+		if relaxed && strings.Contains(a, "(forall ") {
+			continue
+		}
+		asserts.WriteString("(assert ")
+		asserts.WriteString(a)
+		asserts.WriteString(")\n")
+	}
+	if !o.Cover {
+		asserts.WriteString("(assert (not ")
+		asserts.WriteString(o.Goal)
+		asserts.WriteString("))\n")
+	}
+	atext := asserts.String()
+	toks := tokenSet(atext)
+	// literal facts first (they may mention nothing else)
+	var lits strings.Builder
+	var lnames []string
+	for n := range r.litAxioms {
+		lnames = append(lnames, n)
+	}
+	sortStrings(lnames)
+	for _, n := range lnames {
+		if toks[n] {
+			for _, a := range r.litAxioms[n] {
+				lits.WriteString(a)
+				lits.WriteByte('\n')
+			}
+		}
+	}
 	for _, d := range r.decls[:o.NDecl] {
+		// (declare-const NAME SORT)
+		if strings.HasPrefix(d, "(declare-const ") {
+			rest := d[len("(declare-const "):]
+			if i := strings.IndexByte(rest, ' '); i > 0 && !toks[rest[:i]] {
+				continue
+			}
+		}
 		body.WriteString(d)
 		body.WriteByte('\n')
 	}
-	for _, a := range o.PC.list() {
-		body.WriteString("(assert ")
-		body.WriteString(a)
-		body.WriteString(")\n")
-	}
-	if !o.Cover {
-		body.WriteString("(assert (not ")
-		body.WriteString(o.Goal)
-		body.WriteString("))\n")
-	}
+	body.WriteString(atext)
 	text := body.String()
 	b.WriteString(prelude)
-	b.WriteString(r.W.axiomText(text))
+	ax := r.W.axiomText(text + lits.String())
+	if relaxed {
+		var keep []string
+		for _, l := range strings.Split(ax, "\n") {
+			if strings.HasPrefix(l, "(assert (forall") {
+				continue
+			}
+			keep = append(keep, l)
+		}
+		ax = strings.Join(keep, "\n") + "\n"
+	}
+	b.WriteString(ax)
 	b.WriteString(text)
+	b.WriteString(lits.String())
 	b.WriteString("(check-sat)\n")
 	if withModel {
 		// values of the function inputs
@@ -164,6 +212,26 @@ func (o *Oblig) script(withModel bool) string {
 		}
 	}
 	return b.String()
+}
+
+func tokenSet(text string) map[string]bool {
+	m := map[string]bool{}
+	start := -1
+	for i := 0; i < len(text); i++ {
+		c := text[i]
+		if c == '(' || c == ')' || c == ' ' || c == '\n' {
+			if start >= 0 {
+				m[text[start:i]] = true
+				start = -1
+			}
+		} else if start < 0 {
+			start = i
+		}
+	}
+	if start >= 0 {
+		m[text[start:]] = true
+	}
+	return m
 }
 
 func containsSym(text, sym string) bool {
